@@ -138,12 +138,29 @@ class CompositeTransform(SpatialTransform):
         r"""Iterate transformations in order of composition."""
         return self._transforms.items()
 
+    def _copy_with_transforms(self: TCompositeTransform) -> TCompositeTransform:
+        r"""Make shallow copy of this transformation and of the transformations it is composed of.
+
+        The transformations of the copy share their parameters with the transformations of this
+        composite, but conditioning them or clearing their buffers does not modify the latter.
+
+        """
+        copy = shallow_copy(self)
+        transforms = ModuleDict()
+        for name, transform in self.named_transforms():
+            if isinstance(transform, CompositeTransform):
+                transforms[name] = transform._copy_with_transforms()
+            else:
+                transforms[name] = shallow_copy(transform)
+        copy._transforms = transforms
+        return copy
+
     def condition(
         self: TCompositeTransform, *args, **kwargs
     ) -> Union[TCompositeTransform, Optional[Tensor]]:
         r"""Get or set data tensor on which transformations are conditioned."""
         if args or kwargs:
-            return shallow_copy(self).condition_(*args, **kwargs)
+            return self._copy_with_transforms().condition_(*args, **kwargs)
         return self._args, self._kwargs
 
     def condition_(self: TCompositeTransform, *args, **kwargs) -> TCompositeTransform:
@@ -153,6 +170,14 @@ class CompositeTransform(SpatialTransform):
         for transform in self.transforms():
             transform.condition_(*args, **kwargs)
         return self
+
+    def grid(
+        self: TCompositeTransform, grid: Optional[Grid] = None
+    ) -> Union[TCompositeTransform, Grid]:
+        r"""Get grid of this transformation or a new transformation with the specified grid."""
+        if grid is None:
+            return self._grid
+        return self._copy_with_transforms().grid_(grid)
 
     def disp(self, grid: Optional[Grid] = None) -> Tensor:
         r"""Get displacement vector field representation of this transformation.
